@@ -26,6 +26,8 @@ pub enum Req {
     TypedVec { n: usize, base: u64 },
     TypedStatus,
     TypedUpdate { token: u64 },
+    /// one of the six listing commands (0 Queue, 1 QueueRange, 2 CurrentSong, 3 Find, 4 GetPlaylist, 5 ListAllIn)
+    TypedListing { which: usize },
     AlbumArt { uri: String },
 }
 
@@ -225,6 +227,23 @@ async fn exec(client: Client, call: CallId, req: Req) -> CallResult {
             let uri = format!("t{}", token);
             match client.command(c::Update::new().uri(&uri)).await {
                 Ok(v) => CallResult::Typed(vec![format!("update:{}", v)]),
+                Err(e) => cmd_err(e),
+            }
+        }
+        Req::TypedListing { which } => {
+            use super::listing::{render_queue_song, render_song};
+            use mpd_client::filter::Filter;
+            use mpd_client::tag::Tag;
+            let r = match which {
+                0 => client.command(c::Queue).await.map(|v| v.iter().map(render_queue_song).collect::<Vec<_>>()),
+                1 => client.command(c::Queue::range(mpd_client::commands::SongPosition(0)..)).await.map(|v| v.iter().map(render_queue_song).collect()),
+                2 => client.command(c::CurrentSong).await.map(|v| v.iter().map(render_queue_song).collect()),
+                3 => client.command(c::Find::new(Filter::tag(Tag::Artist, "x"))).await.map(|v| v.iter().map(render_song).collect()),
+                4 => client.command(c::GetPlaylist("p")).await.map(|v| v.iter().map(render_song).collect()),
+                _ => client.command(c::ListAllIn::root()).await.map(|v| v.iter().map(render_song).collect()),
+            };
+            match r {
+                Ok(v) => CallResult::Typed(v),
                 Err(e) => cmd_err(e),
             }
         }
